@@ -183,6 +183,10 @@ class Report:
                 lines.append(f'CHECKER-FAULT property={self.prop} obligation={o.ident} solvers disagree {o.second}')
             code = max(code, 3) if code != 1 else 1
         vac = [e for e in self.errors if e[1] in ('vacuous', 'crash')]
+        # a unit with a FAILED obligation is reported as a violation; that its remaining paths are contradictory (an obligation that fails for
+        # certain cuts them off) is then no separate fault of the checker
+        failed_units = {o.unit for o in self.obls if o.verdict == 'failed'}
+        vac = [e for e in vac if not (e[1] == 'vacuous' and e[0] in failed_units)]
         und = [e for e in self.errors if e[1] not in ('vacuous', 'crash')]      # out-of-subset, role, timeout
         # a unit that left the verifier's reach (out of subset / role binding) but whose BOUNDED native stand-in ran and found nothing:
         # "a bounded check of that function with a stated bound may stand in, labelled bounded and never counted as proved" - not an alarm
